@@ -184,12 +184,12 @@ func runCase(tier string, fam progfam.Fam, i uint64) core.Outcome {
 // run is reported as not exhaustive.
 func budget(tier, fam string) int {
 	if tier != "thorough" {
-		return 300
+		return 400
 	}
 	switch fam {
-	case "F1-scope-closure":
+	case "F1-scope-closure-len5":
 		return 1500
-	case "F3-jumps-free", "F3-jumps-nested", "F8-trees", "F2-call-protocol":
+	case "F1-scope-closure", "F3-jumps-free", "F3-jumps-nested", "F8-trees", "F2-call-protocol":
 		return 900
 	}
 	return 400
